@@ -226,6 +226,15 @@ def sweep_to_proto(
                 if key not in sweep_dict:
                     sweep_dict[cast(str, key)] = []
                 sweep_dict[cast(str, key)].append(cast(float, param_resolver.value_of(key)))
+        num_points = len(sweep)
+        if any(len(points) != num_points for points in sweep_dict.values()) or (
+            num_points and not sweep_dict
+        ):
+            # A zip of one column per parameter stops at the shortest column (at once, without columns).
+            raise ValueError(
+                'cannot convert to v2 Sweep proto, the resolvers of a ListSweep must assign '
+                f'the same non-empty set of parameters: {sweep}'
+            )
         out.sweep_function.function_type = run_context_pb2.SweepFunction.ZIP
         for key in sweep_dict:
             sweep_to_proto(
